@@ -1120,7 +1120,7 @@ def export_search(model, keep: list) -> dict:
     for f in frs:
         if f.fragment_type.name != "SEMANTIC":
             continue
-        cache = f._ModelFile__xtypecache
+        cache = __import__("objlayer").private_state(f).xtypecache
         for xt, d in cache.items():
             # an indexed element that is in no tree any more (orphan) is exported as a node number that does not exist
             index.append([xt, [pos.get(id(e), ORPHAN) for e in d.values()]])
